@@ -81,6 +81,21 @@ FormatSeq(e) ==
     IN <<Fix(e.lv[1]), n * FP, Node(e.rel), Node(e.loop)>> \o seg
 Format(e) == IF ValidCurves(e) THEN R("ok", FormatSeq(e)) ELSE R("exc", <<>>)
 
+\* the layout for the interpolating generator (IEnvGen help): offset, initial level, number of segments, total
+\* duration, then per segment duration, shape number, curvature, target level
+RECURSIVE SumTimes(_, _)
+SumTimes(e, i) == IF i > NSeg(e) THEN Z ELSE RAdd(TimeOf(e, i), SumTimes(e, i + 1))
+InterpSeq(e) ==
+    LET n == NSeg(e)
+        seg == [j \in 1..(4 * n) |->
+                  LET i == ((j - 1) \div 4) + 1
+                      f == (j - 1) % 4 IN
+                  CASE f = 0 -> Fix(TimeOf(e, i))
+                    [] f = 1 -> ShapeNum(CurveOf(e, i).nm) * FP
+                    [] f = 2 -> Curvature(CurveOf(e, i))
+                    [] f = 3 -> Fix(e.lv[i + 1])]
+    IN <<Fix(e.off), Fix(e.lv[1]), n * FP, Fix(SumTimes(e, 1))>> \o seg
+Interp(e) == IF ValidCurves(e) THEN R("ok", InterpSeq(e)) ELSE R("exc", <<>>)
 \* inputs of the EnvGen unit generator: gate, levelScale, levelBias, timeScale, doneAction, envelope array
 EnvGenInputs(e, ctl) == [i \in 1..5 |-> Fix(ctl[i])] \o FormatSeq(e)
 
